@@ -1,6 +1,8 @@
 package opset13
 
 import (
+	"math"
+
 	"github.com/advancedclimatesystems/gonnx/onnx"
 	"github.com/advancedclimatesystems/gonnx/ops"
 	"gorgonia.org/tensor"
@@ -28,30 +30,26 @@ func (f *Expand) Init(*onnx.NodeProto) error {
 func (f *Expand) Apply(inputs []tensor.Tensor) ([]tensor.Tensor, error) {
 	input := inputs[0]
 
-	shape, err := ops.AnyToIntSlice(inputs[1].Data())
+	shape, err := ops.AnyToIntSlice(ops.IfScalarToSlice(inputs[1].Data()))
 	if err != nil {
 		return nil, err
 	}
 
-	// If the new shape has more dimensions than the input tensor, we
-	// need to prepend some dimensions to the input tensor shape.
-	if len(shape) > len(input.Shape()) {
-		input, err = ops.AddExtraDimsToTensor(input, len(shape)-len(input.Shape()))
-		if err != nil {
-			return nil, err
-		}
+	if len(shape) == 0 || !ops.AllInRange(shape, 1, math.MaxInt) {
+		return nil, ops.ErrInvalidInput("shape must have at least one dimension and only positive dimensions", f)
 	}
 
-	for axis := len(shape) - 1; axis >= 0; axis-- {
-		if input.Shape()[axis] != shape[axis] {
-			input, err = tensor.Repeat(input, axis, shape[axis])
-			if err != nil {
-				return nil, err
-			}
-		}
+	// Expand is defined as the multidirectional broadcast of the input against a
+	// tensor of the given shape, so let the broadcast helper align both shapes at
+	// their last axis, stretch the axes of size 1 and refuse incompatible shapes.
+	target := tensor.New(tensor.WithShape(shape...), tensor.Of(input.Dtype()))
+
+	out, _, err := ops.MultidirectionalBroadcast(input, target)
+	if err != nil {
+		return nil, err
 	}
 
-	return []tensor.Tensor{input}, nil
+	return []tensor.Tensor{out}, nil
 }
 
 // ValidateInputs validates the inputs that will be given to Apply for this operator.
